@@ -127,10 +127,10 @@ def match_uint(s: str, pos: int) -> int:
     p = pos
     while p < len(s):
         c = s[p]
-        if c.isdigit():
+        if c.isdecimal():
             p += 1
         elif c == '_':
-            if p > pos and p + 1 < len(s) and s[p + 1].isdigit():
+            if p > pos and p + 1 < len(s) and s[p + 1].isdecimal():
                 p += 1
             else:
                 return -1
@@ -148,7 +148,7 @@ def match_int(s: str, pos: int) -> int:
     if p < len(s) and s[p] in {'+', '-'}:
         p += 1
 
-    if p >= len(s) or not s[p].isdigit():
+    if p >= len(s) or not s[p].isdecimal():
         return -1
 
     return match_uint(s, p)
